@@ -441,6 +441,10 @@ def run(ctx):  # noqa: C901, PLR0912, PLR0915
     from . import common
     common.copies_are_deep(ctx, 'C03.R4', with_mk_copy=False)
     common.written_entities_are_copied(ctx, 'C03.R4')
+    # a log call that raises in the middle of the commit leaves it half applied
+    common.log_templates_are_constant(ctx, 'C03.R3', ['sdc11073.mdib.transactions', 'sdc11073.mdib.providermdib', 'sdc11073.mdib.mdibbase',
+                                                      'sdc11073.multikey'])
+    common.no_mutation_while_iterating(ctx, 'C03.R3', ['sdc11073.mdib.transactions', 'sdc11073.mdib.providermdib', 'sdc11073.mdib.mdibbase'])
     # ------------------------------------------------------------------ R5
     hs = repo.func(f'{TR}._TransactionBase._handle_state_updates')
     for c in calls_in(hs.node):
